@@ -3,10 +3,9 @@
    carrying the new value; every other exception -- RequestRejectedException in particular -- passes through and leaves the
    counter alone. *)
 From Coq Require Import List Bool Arith.
-From GW Require Import FailCount InvProg InverterGen.
+From GW Require Import FailCount InvProg InverterGen InvProgInst.
 Import ListNotations.
 
-Definition step := rfs_step exn_ancestors read_from_socket_shape.
 
 (* what command.execute() did, in the vocabulary of FailCount *)
 Definition as_exec (r : rres) (e : iexn) : Prop :=
@@ -26,15 +25,6 @@ Theorem read_from_socket_rejected c : step c (Some IRequestRejected) = (fst (cou
 Proof. split; reflexivity. Qed.
 
 (* whole histories: the counts carried by the raised exceptions are those of count_run *)
-Definition exec_of (r : rres) (which : bool) : option iexn :=
-  match r with RSucc => None | RFail => Some (if which then IMaxRetries else IRequestFailed) | RRej => Some IRequestRejected end.
-
-Fixpoint run_calls (c : nat) (h : list (rres * bool)) : list (option nat) :=
-  match h with
-  | [] => []
-  | (r, w) :: tl => let '(c', o) := step c (exec_of r w) in
-                    (match o with RRaiseFailed n => Some n | _ => None end) :: run_calls c' tl
-  end.
 
 Theorem read_from_socket_history h : forall c, run_calls c h = count_run c (map fst h).
 Proof.
